@@ -207,9 +207,9 @@ def crash_class(r, harness=None, mode=None, line=None):
 def summary(r):
     """what a re-execution must reproduce exactly"""
     c = crash_class(r)
-    # time stamps of two DIFFERENT files agree or not depending on when the two runs happened: they do not take part in the comparison of the
+    # time stamps of two DIFFERENT files agree or not depending on when the two runs happened, and so do comparisons with the REAL host clock: they do not take part in the comparison of the
     # two executions (a difference in them is still reported, next to the differences that do reproduce)
-    return (tuple((s[0], s[1], s[2]) for s in r['steps']), tuple((x[0], x[1]) for x in r['x'] if not x[1].endswith('tim')), c[0] if c else None, stack_signature(r)[1:] if c else None)
+    return (tuple((s[0], s[1], s[2]) for s in r['steps']), tuple((x[0], x[1]) for x in r['x'] if not x[1].endswith('tim') and x[1] != 'real-clock'), c[0] if c else None, stack_signature(r)[1:] if c else None)
 
 
 class Explorer:
